@@ -92,6 +92,10 @@ impl PkeSealingVersion for V1 {
         let c = rsa_encrypt(&sealing_key.0, &BigUint::from_bytes_be(&r))
             .map_err(|_| PasetoError::CryptoError)?
             .to_bytes_be();
+        // the RSA-KEM ciphertext is a fixed-width 512-byte big-endian integer: `to_bytes_be` drops leading zero bytes
+        let mut c_padded = vec![0u8; 512usize.saturating_sub(c.len())];
+        c_padded.extend_from_slice(&c);
+        let c = c_padded;
 
         let k = sha2::Sha384::digest(&c);
 
